@@ -430,6 +430,28 @@ def stepLine (toks : List String) : String :=
         | .err => s!"rerr {consumed}"
         | .panic => "panic"
     | _, _, _ => "bad-op"
+  | "rw" :: init :: cs :: rest =>
+    -- rw INIT CHUNKS phase1… | OFF | phase2…: a ByteBuffer with INIT bytes of storage, phase 1 written from
+    -- offset 0, Seek to OFF, phase 2 written in place; phase 2 read back from OFF of the final storage
+    let p1 := rest.takeWhile (· != "|")
+    match (rest.dropWhile (· != "|")).drop 1 with
+    | off :: "|" :: p2 =>
+      match init.toNat?, parseChunks cs, off.toNat?, parseW (p1.length + 1) p1, parseW (p2.length + 1) p2 with
+      | some init, some cs, some off, some w1, some w2 =>
+        match runW w1 ⟨List.replicate init 0, 0⟩ with
+        | none => "werr"
+        | some b1 =>
+          match runW w2 ⟨b1.buf, off⟩ with
+          | none => "werr"
+          | some b2 =>
+            let o := runProg (readOf w2) ⟨b2.buf.drop off, cs⟩
+            let consumed := (b2.buf.drop off).length - o.rd.rest.length
+            match o.res with
+            | .ok => s!"ok {hex b2.buf} {b2.pos} {consumed} {showVals o.vals}"
+            | .err => s!"rerr {hex b2.buf} {b2.pos} {consumed}"
+            | .panic => "panic"
+      | _, _, _, _, _ => "bad-op"
+    | _ => "bad-op"
   | _ => "bad-op"
 
 end Hive.Stream
